@@ -14,10 +14,13 @@ import (
 	"hash/crc64"
 	"os"
 	"path/filepath"
+	"regexp"
+	"regexp/syntax"
 	"sort"
 	"strings"
 	"testing"
 	"time"
+	"unicode/utf8"
 
 	"github.com/sourcegraph/zoekt"
 	"github.com/sourcegraph/zoekt/query"
@@ -266,6 +269,53 @@ func vfC09GenShard(r *vfRand, i int) vfC09Shard {
 			rp.Docs = append(rp.Docs, vfC09GenDoc(r, &repo, subs, j, &sh.Class))
 		}
 		sh.Repos = append(sh.Repos, rp)
+	}
+	// which of contents / file names contain non-ASCII bytes is a shard-level property (IndexMetadata.PlainASCII is
+	// derived from ALL contents and ALL names): force the four combinations on half of the shards
+	mode := i % 6 // 0-3 forced, 4-5 as generated
+	ascii := func(b []byte, repl byte) []byte {
+		out := append([]byte(nil), b...)
+		for k := range out {
+			if out[k] >= 0x80 {
+				out[k] = repl
+			}
+		}
+		return out
+	}
+	nonASCIIName := func(n string) string { return r.Pick([]string{"dir_ü/", "日本語/", "é", "a€b/"}) + n }
+	ndocs := 0
+	for ri := range sh.Repos {
+		for di := range sh.Repos[ri].Docs {
+			d := &sh.Repos[ri].Docs[di]
+			ndocs++
+			switch mode {
+			case 0: // names only
+				d.Content = ascii(d.Content, 'c')
+				if !strings.HasPrefix(d.Name, d.SubRepo+"/") || d.SubRepo == "" {
+					d.Name = nonASCIIName(string(ascii([]byte(d.Name), 'n')))
+				}
+			case 1: // contents only
+				d.Name = string(ascii([]byte(d.Name), 'n'))
+				if len(d.Syms) == 0 && d.Skip == SkipReasonNone {
+					d.Content = append(d.Content, []byte(" é日")...)
+				}
+			case 2: // neither
+				d.Content = ascii(d.Content, 'c')
+				d.Name = string(ascii([]byte(d.Name), 'n'))
+			case 3: // both
+				if d.SubRepo == "" {
+					d.Name = nonASCIIName(d.Name)
+				}
+				if len(d.Syms) == 0 && d.Skip == SkipReasonNone {
+					d.Content = append(d.Content, []byte(" ß")...)
+				}
+			}
+		}
+	}
+	if mode < 4 && ndocs > 0 {
+		sh.Class = append(sh.Class, "nonascii="+[]string{"names-only", "contents-only", "neither", "both"}[mode])
+	} else {
+		sh.Class = append(sh.Class, "nonascii=free")
 	}
 	return sh
 }
@@ -551,6 +601,69 @@ func vfC09RunShard(t *testing.T, sh *vfC09Shard, key string) {
 			}
 		}
 	}
+	// "read back with identical name" includes being findable by that name: for every document with a valid UTF-8
+	// name a case-sensitive substring query and a regexp query on a piece of the name that lies AFTER its last
+	// multi-byte rune (if any; >= 3 bytes) must return the document under exactly that name
+	for _, w := range wants {
+		if !utf8.ValidString(w.name) {
+			continue
+		}
+		cut := 0
+		for i, c := range w.name {
+			if c >= utf8.RuneSelf {
+				cut = i + utf8.RuneLen(c)
+			}
+		}
+		needle := w.name[cut:]
+		if len(needle) < 3 {
+			needle = w.name
+			if rs := []rune(needle); len(rs) > 8 {
+				needle = string(rs[len(rs)-8:])
+			}
+		}
+		if utf8.RuneCountInString(needle) < 3 {
+			continue
+		}
+		re, perr := syntax.Parse(regexp.QuoteMeta(needle), syntax.Perl)
+		if perr != nil {
+			continue
+		}
+		for _, q := range []query.Q{
+			&query.Substring{Pattern: needle, FileName: true, CaseSensitive: true},
+			&query.Substring{Pattern: needle, FileName: true},
+			&query.Regexp{Regexp: re, FileName: true, CaseSensitive: true},
+		} {
+			nres, err := s.Search(context.Background(), q, &zoekt.SearchOptions{})
+			found := false
+			if err == nil {
+				for _, f := range nres.Files {
+					if f.Repository == w.repo && f.FileName == w.name {
+						found = true
+					}
+				}
+			}
+			if !found {
+				fail("name-search", fmt.Sprintf("document %q of %s is not found by the file-name query %s (err %v)", w.name, w.repo, q.String(), err))
+				break
+			}
+		}
+	}
+	// the metadata flag Write derives: PlainASCII iff every stored content and every name is ASCII
+	{
+		plain := true
+		for _, w := range wants {
+			for _, str := range []string{w.name, w.content} {
+				for k := 0; k < len(str); k++ {
+					if str[k] >= 0x80 {
+						plain = false
+					}
+				}
+			}
+		}
+		if d.metaData.PlainASCII != plain {
+			fail("plain-ascii", fmt.Sprintf("IndexMetadata.PlainASCII = %v, but all-ASCII(contents and names) = %v", d.metaData.PlainASCII, plain))
+		}
+	}
 	rl, err := s.List(context.Background(), &query.Const{Value: true}, nil)
 	if err != nil {
 		fail("list", "List fails: "+err.Error())
@@ -735,7 +848,7 @@ func vfC09RunShard(t *testing.T, sh *vfC09Shard, key string) {
 	}
 	obs := cApp("mkObs", dos, vfC09U32s(d.fileEndSymbol), vfC09Secs(d.runeDocSections), vfC09U32s(d.fileEndRunes), vfC09U32s(d.fileNameEndRunes),
 		rom(d.runeOffsets), rom(d.fileNameRuneOffsets), vfC09Ngrams(d.contentNgrams), vfC09Ngrams(d.fileNameNgrams), sos)
-	coq := cApp("CShard", cBool(sh.Compound), cList(repos), opq, cBytes(file), obs)
+	coq := cApp("CShard", cBool(sh.Compound), cList(repos), opq, cBytes(file), obs, cBool(d.metaData.PlainASCII))
 	nontrivial := ndocs >= 2 || len(file) > 3000
 	vfCase(coq, key, nontrivial, append(sh.Class, fmt.Sprintf("docs=%d", min(ndocs, 6))), map[string]any{"key": key, "docs": ndocs, "bytes": len(file), "compound": sh.Compound})
 }
